@@ -441,6 +441,12 @@ def gen_seq(rng, idx: int, n=(2, 8)) -> dict:
             kw["dry_run"] = True
         elif r < 0.45:
             kw["force"] = True
+        if rng.random() < 0.2:
+            kw["show_locals"] = True
+        if rng.random() < 0.2:
+            kw["editor_url_scheme"] = "no_link"
+        if rng.random() < 0.15:
+            kw["show_capture"] = rng.choice(["no", "stdout", "stderr"])
         if rng.random() < 0.08:
             kw["capture"] = "bogus"   # configuration fails in pytask_parse_config
         builds.append({"sub": sub, "kw": kw})
